@@ -163,6 +163,18 @@ def run_case(case):
     flags["second_fit_identical"] = bool(all(res2.parameters[k] == got[k] for k in keys))
     if not flags["second_fit_identical"]:
         resid["second_fit_diff"] = fnum(max(abs(res2.parameters[k] - got[k]) / abs(got[k]) for k in keys))
+    # the derived quantities of a result do not depend on the order they are looked at: on the second result the hologram of the
+    # initial guess is read first, then the fitted hologram (the first result was read the other way round)
+    def _vs_full(h, pars):
+        f = model.forward(pars, data_full)
+        try:
+            return relmax(h.transpose(*f.dims).values, f.values) if h.shape == f.shape or set(h.dims) == set(f.dims) else relmax(h.values.ravel(), f.transpose("x", "y", "z").values.ravel())
+        except Exception:
+            return relmax(np.sort(h.values.ravel()), np.sort(f.values.ravel()))
+    gh2 = res2.guess_hologram
+    resid["guess_hologram_vs_model_forward"] = _vs_full(gh2, model.initial_guess)
+    resid["hologram_vs_model_forward@guess_read_first"] = _vs_full(res2.hologram, res2.parameters)
+    resid["guess_hologram_vs_model_forward@read_second"] = _vs_full(res.guess_hologram, model.initial_guess)
     # the same model object fitted to a second data set whose metadata differ (other wavelength): what the model takes
     # from the data must come from THIS data set -- result identical to that of a freshly built model
     if wl_from_data:
@@ -203,17 +215,19 @@ def run_case(case):
 
 # ------------------------------------------------------------------ oracle
 
-TOL = {"fixed_point": 1e-9, "fixed_point@second_dataset": 1e-9, "recovery": 1e-6, "recovery_with_free_lens_angle": float("inf"), "misfit_ratio_minus_1": 1e-9, "hologram_is_forward": 1e-10, "hologram_vs_model_forward": 1e-10,
+TOL = {"fixed_point": 1e-9, "fixed_point@second_dataset": 1e-9, "recovery": 1e-6, "recovery_with_free_lens_angle": float("inf"), "misfit_ratio_minus_1": 1e-9, "hologram_is_forward": 1e-10, "hologram_vs_model_forward": 1e-10, "guess_hologram_vs_model_forward": 1e-10,
        "max_lnprob": 1e-10, "reload_hologram": 1e-12, "reload_second_result_hologram": 1e-12, "reload_data": 0.0, "second_fit_diff": 0.0}
 
 
 def judge(case, obs):
     out = []
     desc = {k: case.get(k) for k in ("theory", "fit_lens_angle", "tight_bounds", "strategy", "subset", "start", "n", "r", "z", "alpha", "npix")}
-    sfx = ".truth_on_bounds" if case.get("all_on_bounds") else ""
+    # a generating value that sits exactly on an edge of its prior is the regime of known finding F58 (the scipy strategy never hands the
+    # bounds to its minimiser); the suffix names the regime, it does not excuse anything: only the scipy mechanisms are registered
+    sfx = ".truth_on_bounds" if case.get("all_on_bounds") or case.get("alpha_on_bound") else ""
     for k, v in obs["resid"].items():
-        if not v <= TOL[k]:
-            out.append({"mech": "fit.%s.%s%s" % (k, case["strategy"], sfx), "detail": "%s=%.3e > %.0e; %s got=%s truth=%s" % (k, v, TOL[k], desc, obs.get("got"), obs.get("truth"))})
+        if not v <= TOL[k.split("@")[0]] if "@" in k and k not in TOL else not v <= TOL[k]:
+            out.append({"mech": "fit.%s.%s%s" % (k, case["strategy"], sfx), "detail": "%s=%.3e > %.0e; %s got=%s truth=%s" % (k, v, TOL.get(k, TOL[k.split("@")[0]]), desc, obs.get("got"), obs.get("truth"))})
     for k, v in obs["flags"].items():
         if not v:
             out.append({"mech": "fit.%s.%s%s" % (k, case["strategy"], sfx), "detail": "flag false; %s got=%s truth=%s" % (desc, obs.get("got"), obs.get("truth"))})
